@@ -19,6 +19,7 @@ CWD = "/w"
 # the sandbox: /w contains file "f", directory "d" (with file "d/f" and subdirectory "d/s"), file "f.tmp"
 FILES = {"/w/f", "/w/d/f", "/w/f.tmp"}
 DIRS = {"/", "/w", "/w/d", "/w/d/s"}
+LINKS = {"/w/l": "/e/p"}      # a dangling symbolic link in the cwd (its target does not exist)
 
 
 def S(x):
@@ -84,6 +85,19 @@ class SymPath:
         if not p.startswith("/"):
             p = SymPath.join(CWD, p)
         return SymPath.normpath(p)
+
+    @staticmethod
+    def realpath(p):
+        """abspath, then resolution of the sandbox's symbolic links (whole-path links only)"""
+        q = SymPath.abspath(p)
+        for link, target in LINKS.items():
+            if len(q) == len(link) and bool(q == link):
+                return S(target)
+        return q
+
+    @staticmethod
+    def lexists(p):
+        return SymPath._is(p, FILES | DIRS | set(LINKS))
 
     @staticmethod
     def _is(p, names):
@@ -224,7 +238,7 @@ class ReceivePaths(Job):
         self.name = "receive_%s_name%d_out-%s_%s_m%d" % (mode, n, outsel, "accept" if accept else "ask", nmember)
         self.bounds = dict(offer=mode, offered_name_len=n, output_file=outsel, accept_file=accept, zip_member_name_len=nmember,
                            alphabet="every Unicode code point except surrogates (so '/', '.', NUL, anything)",
-                           sandbox="cwd /w with file f, file f.tmp, directory d containing file f and directory s")
+                           sandbox="cwd /w with file f, file f.tmp, directory d containing file f and directory s, dangling symlink l -> /e/p")
         self.must_reach = ()
 
     def run(self, name, member, answer):
@@ -313,6 +327,8 @@ class ReceivePaths(Job):
         name, member, answer = inp["name"], inp.get("member"), inp.get("answer", "y")
         global SymPath
         saved = (SymPath.join, SymPath.basename, SymPath.normpath, SymPath.abspath)
+        saved_real = SymPath.realpath
+        SymPath.realpath = staticmethod(lambda p: LINKS.get(posixpath.normpath(posixpath.join(CWD, p)), posixpath.normpath(posixpath.join(CWD, p))))
         SymPath.join = staticmethod(lambda a, *p: posixpath.join(a, *p))
         SymPath.basename = staticmethod(posixpath.basename)
         SymPath.normpath = staticmethod(posixpath.normpath)
@@ -326,6 +342,7 @@ class ReceivePaths(Job):
             mut = [(op, "".join(p.c) if isinstance(p, SymStr) else p) for op, p in mut]
         finally:
             SymPath.join, SymPath.basename, SymPath.normpath, SymPath.abspath = [staticmethod(x) for x in saved]
+            SymPath.realpath = staticmethod(saved_real)
         desc = "offer name %r%s, output_file=%r, accept_file=%r, answer=%r -> %s, destination %r, mutations %r" % (
             name, (" zip member %r" % member) if member else "", out, self.accept, answer, verdict, D, mut)
         if mut and D is None:
